@@ -91,6 +91,14 @@ func counterFloors(tier string) map[string]int64 {
 		"feat_visibility_hidden_inline":              300 * k,
 		"feat_visibility_visible_in_hidden":          110 * k,
 		"feat_visibility_collapse":                   100 * k,
+		// round "strengthen5": transparent text (alpha 0) must be drawn; ::first-letter with
+		// punctuation after the letter, inline and floated (drop cap) form
+		"transparent_textboxes_visible":  900 * k,
+		"transparent_draws_matched":      850 * k,
+		"first_letter_punct_boxes":       150 * k,
+		"first_letter_float_boxes":       11 * k,
+		"first_letter_float_punct_boxes": 11 * k,
+		"feat_transparent_text":          380 * k,
 	}
 }
 
@@ -161,6 +169,7 @@ type gen struct {
 	effHide bool       // the inherited visibility at this point is not `visible`
 	vr      *rand.Rand // own random stream of the visibility decisions (see vis)
 	caseIdx int
+	xr      *rand.Rand // own random stream of the round "strengthen5" decisions (see xRand)
 	noVis   bool // inside a paragraph with ::first-letter: no visibility declaration (see paragraph)
 	noBreak bool // inside a box that must not contain forced breaks (bounded float)
 	ahem    bool
@@ -312,11 +321,34 @@ func (g *gen) inlineStyle() string {
 	if g.chance(0.08) {
 		st = append(st, "color:#"+g.pick("c00", "080", "00c", "555"))
 	}
+	if g.xRand().Float64() < 0.10 {
+		// fully transparent text is laid out and drawn like any other (it stays selectable /
+		// extractable): every form of alpha 0
+		xs := []string{"transparent", "rgba(10,20,30,0)", "#00c0", "#12345600", "hsla(120,50%,50%,0)", "rgb(0 0 0 / 0)"}
+		st = append(st, "color:"+xs[g.xRand().Intn(len(xs))])
+		g.f("transparent_text")
+	}
 	if len(st) == 0 {
 		return ""
 	}
 	return ` style="` + strings.Join(st, ";") + `"`
 }
+
+// xRand is the random stream of the decisions added in round "strengthen5" (transparent colours,
+// punctuation after the first letter, floated ::first-letter); like visRand it is seeded from the
+// generator state at its first use, so that the draws of g.r - the structure of the documents -
+// stay what they were.
+func (g *gen) xRand() *rand.Rand {
+	if g.xr == nil {
+		g.xr = rand.New(rand.NewSource(int64(g.caseIdx)*2000003 + int64(g.wid)*104723 + int64(g.sb.Len())*7919 + int64(g.fs)*31 + 5))
+	}
+	return g.xr
+}
+
+// firstLetterLeaders are paragraph openings whose ::first-letter takes punctuation with the letter
+// (CSS 2.1 section 5.12.2: punctuation before and after the first letter is included).  ASCII only (the oracle
+// indexes the flow text by byte), no 'w' (it starts the tokens), no white space inside.
+var firstLetterLeaders = []string{`A,`, `"B"`, `I'm`, `O.K.`, `(Z)`, `X!?`, `'E'`, `7:3`, `[k]A`}
 
 // inlineContent emits n words with inline elements, line breaks and atomic inlines between them.
 func (g *gen) inlineContent(n int) {
@@ -810,6 +842,7 @@ func (g *gen) paragraph() {
 	}
 	st := g.blockStyle(true)
 	id := ""
+	flLeader := ""
 	restore := g.hideMaybe(&id, &st)
 	if len(g.hidden) == 0 || g.hidden[len(g.hidden)-1] != id {
 		if vdecl, vrestore := g.vis(&id, "v", 0, 0.3); vdecl != "" {
@@ -830,7 +863,25 @@ func (g *gen) paragraph() {
 		if id == "" {
 			id = g.newID("e")
 		}
-		g.css = append(g.css, "#"+id+"::first-letter{"+g.pick("color:#c00", "font-weight:bold", "background:#ff0", "padding:0 2px", "border:1px solid #c00", "font-size:150%")+"}")
+		flDecl := g.pick("color:#c00", "font-weight:bold", "background:#ff0", "padding:0 2px", "border:1px solid #c00", "font-size:150%")
+		// floated form (drop cap): the letter becomes a floated block box that still belongs to the
+		// text of the paragraph; only where floats are generated at all (g.oofOK: one-page documents,
+		// see the float findings), not inside another out-of-flow box
+		if g.oofOK && !g.inHide && g.inOOF == 0 && g.inInl == 0 && g.xRand().Float64() < 0.6 {
+			flDecl += ";float:" + []string{"left", "right", "left"}[g.xRand().Intn(3)]
+			g.vsum += 36 * 2
+			g.lineBreaks += 2
+			g.f("first_letter_float")
+			g.feat["first_letter_float_here"] = true
+		}
+		g.css = append(g.css, "#"+id+"::first-letter{"+flDecl+"}")
+		// the floated form always has a leader: the letter then comes from the paragraph's own first
+		// text node, and the oracle reads the drop cap as the start of that paragraph's content
+		if g.feat["first_letter_float_here"] || g.xRand().Float64() < 0.6 {
+			flLeader = firstLetterLeaders[g.xRand().Intn(len(firstLetterLeaders))]
+			g.f("first_letter_punct")
+		}
+		delete(g.feat, "first_letter_float_here")
 		if g.maxFS < 36 {
 			g.maxFS = 36
 		}
@@ -843,6 +894,12 @@ func (g *gen) paragraph() {
 		g.noVis = true
 	}
 	g.sb.WriteString("<" + tag + attrs(id, st) + ">")
+	if flLeader != "" {
+		// plain characters of the paragraph's own text, before its first token
+		g.sb.WriteString(flLeader + " ")
+		g.cur().Text += flLeader
+		g.chars += len(flLeader)
+	}
 	n := 1 + g.r.Intn(12)
 	if g.chance(0.15) {
 		n = 10 + g.r.Intn(40)
